@@ -44,6 +44,10 @@ type Proto struct {
 	ListenMode string `json:"listenmode,omitempty"`
 	Items      []Item `json:"items,omitempty"`
 	Iface      string `json:"iface,omitempty"`
+	// IfaceRaw: if set, the value of the interface key as YAML text: an empty string, a list, a
+	// mapping. The key is there, so together with listen the file must be refused; what the key
+	// alone means with such a value the property does not say
+	IfaceRaw string `json:"ifaceraw,omitempty"`
 	// PluginsMode: list | missing | null | empty | scalar | map
 	PluginsMode string   `json:"pluginsmode,omitempty"`
 	Plugins     []Plugin `json:"plugins,omitempty"`
@@ -147,7 +151,11 @@ func Render(c *Case) string {
 					parts = append(parts, "listen: ["+strings.Join(its, ", ")+"]")
 				}
 				if p.ListenMode == "interface" || p.ListenMode == "both" {
-					parts = append(parts, "interface: "+quote(p.Iface, 0, true))
+					if p.IfaceRaw != "" {
+						parts = append(parts, "interface: "+p.IfaceRaw)
+					} else {
+						parts = append(parts, "interface: "+quote(p.Iface, 0, true))
+					}
 				}
 			}
 			plugins := func() {
@@ -201,7 +209,11 @@ func Render(c *Case) string {
 				}
 			}
 			if p.ListenMode == "interface" || p.ListenMode == "both" {
-				sb.WriteString(pad + "interface: " + quote(p.Iface, 0, false) + "\n")
+				if p.IfaceRaw != "" {
+					sb.WriteString(pad + "interface: " + p.IfaceRaw + "\n")
+				} else {
+					sb.WriteString(pad + "interface: " + quote(p.Iface, 0, false) + "\n")
+				}
 			}
 		}
 		plugins := func() {
@@ -543,6 +555,17 @@ func Exec(c Case) (res core.Result) {
 		res.Classes = []string{"mutated"}
 		res.NonTrivial = mt != text
 		return
+	}
+	for _, p := range []*Proto{&c.P4, &c.P6} {
+		if p.Present && p.Scalar == "" && p.ListenMode == "interface" && p.IfaceRaw != "" {
+			// the deprecated key alone, with a value that is not an interface name: undefined, but no panic
+			_, _, pan := load(text)
+			if pan != nil {
+				res.Viol = core.Violate("C18/panic", "config.Load panicked: %v\n%s", pan, text)
+			}
+			res.Classes = []string{"interface-key-with-odd-value"}
+			return
+		}
 	}
 	var a4, a6 []expAddr
 	reject := ""
